@@ -159,6 +159,20 @@ CLAIMED = {
                  "(docs say both 'returns the other operand' and 'acts like zero'), max with an empty operand (statement vs documented example). One representative value per kind."),
         "design_ref": "DESIGN.md section 4 C08",
     },
+    "C15": {
+        "level": "exploration",
+        "technique": "property-based testing: Hypothesis-generated argument rows evaluated in batches against independent Python references (str on code points, re, hashlib, base64, %-formatting), inverse pairs, and a generated state machine for regex captures",
+        "text": ("Rows of (subject with 1-4-byte characters and combining marks, regex from a safe RE2/Python-common subset incl. optional/alternated groups "
+                 "with several matches per subject, replacement templates with \\0-\\9, indices in -4..11, multi-byte pad strings, literal patterns) run 10-30 per "
+                 "invocation through ~47 function applications: strlen toupper tolower capitalize strip lstrip rstrip collapse_whitespace sub gsub ssub gssub "
+                 "=~ !=~ strmatch strmatchx (matched/full_capture/positions, substr1 at reported positions) regextract_or_else substr/substr0/substr1 truncate "
+                 "md5 sha1 sha256 sha512 base64 and hex both ways leftpad rightpad format index contains splitax/joinv json_stringify/parse latin1/utf8. "
+                 "printf: fmtnum/fmtifnum/hexfmt with generated flags/width/precision/l,ll and d,x,f,e,g; --ofmt on pass-through and computed floats; DSL "
+                 "string-literal escape spellings; capture state machine (=~ success/failure/null, sub, UDF frames); digests at block-boundary lengths to 100000 bytes."),
+        "note": ("Trusted: Python str/re/hashlib/base64/% formatting. gsub only on patterns that cannot match the empty string; %g without precision and negative ints under %x "
+                 "are underdetermined (docs defer to Go's fmt); sub inside an active =~ capture is not specified and not generated. Known finding: lexer rejects \\U, \\a, \\v and astral characters in literals."),
+        "design_ref": "DESIGN.md section 4 C15",
+    },
 }
 
 NOT_YET = "check not built yet in this session (see DESIGN.md section 8 build order); will be claimed when its sub-checks run"
